@@ -258,8 +258,12 @@ Step(Rd(_), s, dv) ==
             [] mode = "iax" -> Res([s EXCEPT !.PC = R16k(Rd, k, W16(a16 + s.X))], <<>>, {}))
     [] mn = "jsr" ->
          LET ret == W16(s.PC + 2)
-             tgt == IF mode = "abs" THEN a16 ELSE R16k(Rd, k, W16(a16 + s.X))
-         IN Res([s EXCEPT !.PC = tgt, !.S = W16(s.S - 2)], Push16S(s.S, ret), {})
+             ptr == W16(a16 + s.X)
+             tgt == IF mode = "abs" THEN a16 ELSE R16k(Rd, k, ptr)
+             \* (a,X): the return address is pushed before the pointer is read; a pointer lying in the two bytes
+             \* just pushed (bank 0) is an order-of-access corner the programming model leaves open
+             overlap == mode = "iax" /\ k = 0 /\ ({ptr, W16(ptr + 1)} \cap {s.S, W16(s.S - 1)} # {})
+         IN Res([s EXCEPT !.PC = tgt, !.S = W16(s.S - 2)], Push16S(s.S, ret), IF overlap THEN {"PC"} ELSE {})
     [] mn = "jsl" ->
          Res([s EXCEPT !.PC = a16, !.K = o3, !.S = W16(s.S - 3)],
              << <<s.S, k>> >> \o Push16S(W16(s.S - 1), W16(s.PC + 3)), {})
@@ -303,9 +307,11 @@ Step(Rd(_), s, dv) ==
     [] mn \in {"brk", "cop"} ->
          LET vec == IF mn = "brk" THEN 65510 ELSE 65508           \* $00FFE6 / $00FFE4
              ret == W16(s.PC + 2)
-         IN Res([s EXCEPT !.PC = R16z(Rd, vec), !.K = 0, !.S = W16(s.S - 4),
-                          !.P = SetF(SetF(s.P, FD, 0), FI, 1)],
-                << <<s.S, k>> >> \o Push16S(W16(s.S - 1), ret) \o << <<W16(s.S - 3), s.P>> >>, {})
+             wr == << <<s.S, k>> >> \o Push16S(W16(s.S - 1), ret) \o << <<W16(s.S - 3), s.P>> >>
+             \* the vector is fetched AFTER the pushes: a stack that runs over $00FFE4-$00FFE7 is read back
+             RdA(a) == IF \E i \in 1..4 : wr[i][1] = a THEN wr[CHOOSE i \in 1..4 : wr[i][1] = a][2] ELSE Rd(a)
+         IN Res([s EXCEPT !.PC = RdA(vec) + 256 * RdA(vec + 1), !.K = 0, !.S = W16(s.S - 4),
+                          !.P = SetF(SetF(s.P, FD, 0), FI, 1)], wr, {})
     [] mn = "stp" -> Res([nx EXCEPT !.stp = 1], <<>>, {"PC"})
     [] mn = "wai" -> Res(nx, <<>>, {"PC"})
     [] OTHER -> Res(nx, <<>>, {})          \* nop, wdm
